@@ -33,10 +33,10 @@ def esc(b):
 
 
 def case_to_line(c):
-    """id | kind | #labelsets { #pairs { k | v } } | #batches { #entries { fp | labelset | ts | err | msg | tsf | val } } | #items { item } | out
+    """id | kind | #labelsets { #pairs { k | v } } | #batches { #entries { fp | labelset | ts | err | msg | tsf | val } } | #items { item } | #order { fp } | out
     (decoded by decode_case in model/JsonStream.v)"""
     lsets, idx = [], {}
-    matrix = c["kind"] == "matrix"      # the float texts are used by the matrix writer only
+    matrix = c["kind"] in ("matrix", "vector")      # the number texts are used by the matrix and vector writers only
     f = [str(c["id"]), c["kind"]]
     for b in c["batches"] or []:
         for e in b:
@@ -58,6 +58,9 @@ def case_to_line(c):
     items = c.get("items") or []
     f.append(str(len(items)))
     f += [esc(unhex(it)) for it in items]
+    order = [o for o in (c.get("order") or []) if o.isdigit()]
+    f.append(str(len(order)))
+    f += order
     f.append(esc(unhex(c["out"])))
     return '"' + "|".join(f) + '"'
 
